@@ -71,9 +71,9 @@ PROPS = {
                             "whose is_address filter keeps a text with a rejected piece as a plain string, printed verbatim (C06_defined_name_text_kept, hypothesis "
                             "(splitStr v).all isAddress = false; that EVERY qualified col:col / row:row text is rejected by is_address is not a theorem - examples only; "
                             "tied by the pp name lines); set_address on a NON-default Address with an unqualified text keeps the old sheet name (`if sheet_name != \"\"`) - not "
-                            "modelled by Address.parse; the grammar predicates canonAreaB' / canonAddrB are not evaluated by the harness or the driver (no coverage counter "
-                            "of their own: the pp area lines carry the canonAreaB bit only, their reply text ties Address.parse / Address.text on A:C, 1:5, $A:$B and $A$1 "
-                            "behind and without qualifiers)",
+                            "modelled by Address.parse; the grammar predicate canonAddrB is evaluated on both sides by the `pp total` lines (the reply leads with it; counters pp.total.* per "
+                            "qualified / unqualified x shape; oracle address-total-parse-print: the printed text is a fixed point with the same sheet and corners, and an "
+                            "unqualified area comes back verbatim with an empty sheet name)",
                             "Range::set_range / get_range (structs/range.rs) are NOT compiled from the source (probed: set_range stops at `.split(':')` on str - then a "
                             "Vec<&str> that is indexed, ColumnReference::default() and `self.start_col = Some(..)`; get_range calls the sibling &self methods "
                             "get_coordinate_start / _end, which call ColumnReference::get_coordinate - not a plain getter); "
